@@ -161,15 +161,15 @@ def run(ctx):
     for (layout, per) in layouts(ctx):
         threads = ctx.rng.choice([1, 2, 4, 8])
         param = simrun.hydro_param(layout, per, cells_per_subgrid=(2, 2, 2), total_time=0.002)
-        res = simrun.run_sim(binary, param, ["--task-based-rhd", "--number-of-steps", "2"], threads=threads, timeout=90)
+        res = simrun.run_sim(binary, param, ["--task-based-rhd", "--number-of-steps", "2"], threads=threads, timeout=60)
         ctx.count()
         ctx.distinct((layout, per, threads), nontrivial=(layout != (1, 1, 1) or any(per)))
         rep = {"layout": layout, "periodicity": per, "threads": threads, "param": param,
                "cmd": "CMacIonize --params run.param --task-based-rhd --number-of-steps 2 --threads %d" % threads}
         if res["timed_out"]:
-            ctx.violation("hydro:step-never-finishes", "the hydro step of layout %s periodicity %s did not finish within 90 s (threads=%d); last log line: %s"
+            ctx.violation("hydro:step-never-finishes", "the hydro step of layout %s periodicity %s did not finish within 60 s (threads=%d); last log line: %s"
                           % (layout, per, threads, res["log"].strip().split("\n")[-1][-200:]), rep)
-            continue
+            break   # every further layout with this defect would cost another timeout
         if res["rc"] != 0:
             ctx.violation("hydro:run-failed", "run of layout %s periodicity %s exited with status %d: %s" % (layout, per, res["rc"], res["log"][-400:]), rep)
             continue
